@@ -33,11 +33,18 @@ Ltac bools := repeat match goal with
   | |- context [?a =? ?b] => destruct (Nat.eqb_spec a b)
   end; simpl; try lia.
 
+Definition good (s : st) (n : nat) : bool := negb (memb n (bad s)).
+
 Record Inv (s : st) : Prop := {
   v_inf : inflight s = None;
-  v_ord : gcd s <= k s /\ k s <= pseq s /\ pseq s <= seq s /\ k s <= c s /\ c s <= seq s /\ seq s <= la s;
-  v_pd : forall n, count n (pdata s) = ind ((1 <=? n) && (n <=? pseq s));
-  v_mem : forall n, count n (mem s) = ind ((pseq s <? n) && (n <=? seq s));
+  v_ord : gcd s <= k s /\ pseq s <= seq s /\ k s <= c s /\ seq s <= la s /\ c s <= la s;
+  (* an acknowledged entry that carries rows is stored; between the applied and the consumed position (after a restart
+     or a rebuild) there are only undecodable entries *)
+  v_ack : forall n, n <= k s -> good s n = true -> n <= pseq s;
+  v_gap : forall n, seq s < n -> n <= c s -> good s n = false;
+  v_bad : forall n, In n (bad s) -> n <= la s;
+  v_pd : forall n, count n (pdata s) = ind ((1 <=? n) && (n <=? pseq s) && good s n);
+  v_mem : forall n, count n (mem s) = ind ((pseq s <? n) && (n <=? seq s) && good s n);
   v_fresh : forall n, In n (fresh s) -> n <= la s;
   v_sub : forall x, In x (ndisk s) -> In x (nmem s);
   v_nm : forall n, In n (mem s) -> In (name_of s n) (nmem s);
@@ -47,69 +54,112 @@ Record Inv (s : st) : Prop := {
 Lemma in_mem_le s n : Inv s -> In n (mem s) -> n <= seq s.
 Proof.
   intros HI Hin. apply count_pos_in in Hin. rewrite (v_mem _ HI) in Hin. unfold ind in Hin.
-  destruct (Nat.leb_spec n (seq s)); [lia|]. rewrite andb_false_r in Hin. lia.
+  destruct (Nat.leb_spec n (seq s)); [lia|]. rewrite andb_false_r in Hin. cbn in Hin. lia.
 Qed.
 Lemma in_pd_le s n : Inv s -> In n (pdata s) -> n <= pseq s.
 Proof.
   intros HI Hin. apply count_pos_in in Hin. rewrite (v_pd _ HI) in Hin. unfold ind in Hin.
-  destruct (Nat.leb_spec n (pseq s)); [lia|]. rewrite andb_false_r in Hin. lia.
+  destruct (Nat.leb_spec n (pseq s)); [lia|]. rewrite andb_false_r in Hin. cbn in Hin. lia.
 Qed.
+
+Ltac fields := cbn [upd la gcd k c seq gen mem pseq pdata inflight fresh nmem ndisk bad good].
 
 Lemma step_inv s e : Inv s -> atomic e -> ok_step s e = true -> Inv (step s e).
 Proof.
-  intros HI Ha Hok. pose proof HI as [Hi (O1 & O2 & O3 & O4 & O5 & O6) Hp Hm Hf Hs Hnm Hnd].
-  destruct e as [b| | | | | | | | | |]; simpl in Ha; try contradiction; cbn [step].
+  intros HI Ha Hok. pose proof HI as [Hi (O1 & O2 & O3 & O4 & O5) Hack Hgap Hbad Hp Hm Hf Hs Hnm Hnd].
+  destruct e as [b| | | | | | | | | | |]; simpl in Ha; try contradiction; cbn [step].
   - (* Append: the name labelling changes for the new entry only *)
     assert (Hname : forall n, n <= la s -> name_of (upd s (la s + 1) (gcd s) (k s) (c s) (seq s) (gen s) (mem s) (pseq s) (pdata s) (inflight s)
                        (if b then (la s + 1) :: fresh s else fresh s) (nmem s) (ndisk s)) n = name_of s n).
     { intros n Hn. unfold name_of, upd; cbn [fresh]. destruct b; [|reflexivity].
       cbn [memb existsb]. destruct (Nat.eqb_spec n (la s + 1)); [lia|reflexivity]. }
-    constructor; cbn [upd la gcd k c seq gen mem pseq pdata inflight fresh nmem ndisk]; auto; try lia.
+    constructor; unfold good in *; fields; auto; try lia.
+    + intros n Hn. specialize (Hbad n Hn). lia.
     + intros n Hn. destruct b; [destruct Hn as [<-|Hn]; [lia|]|]; specialize (Hf n Hn); lia.
     + intros n Hn. rewrite Hname; [apply Hnm, Hn|]. pose proof (in_mem_le s n HI Hn). lia.
     + intros n Hn. rewrite Hname; [apply Hnd, Hn|]. pose proof (in_pd_le s n HI Hn). lia.
+  - (* AppendBad: the new entry lies above everything consumed, applied or stored *)
+    assert (Hg : forall n, n <= la s -> negb (memb n ((la s + 1) :: bad s)) = negb (memb n (bad s))).
+    { intros n Hn. cbn [memb existsb]. destruct (Nat.eqb_spec n (la s + 1)); [lia|reflexivity]. }
+    assert (Hr : forall (lo hi n : nat) (P : bool), hi <= la s ->
+                 P && (n <=? hi) && negb (memb n ((la s + 1) :: bad s)) = P && (n <=? hi) && negb (memb n (bad s))).
+    { intros lo hi n P Hhi. destruct (Nat.leb_spec n hi); [rewrite Hg by lia; reflexivity|rewrite !andb_false_r; reflexivity]. }
+    constructor; unfold good in *; cbn [la gcd k c seq gen mem pseq pdata inflight fresh nmem ndisk bad]; auto; try lia.
+    + intros n Hn Hgood. apply Hack; [exact Hn|]. rewrite <- Hg by lia. exact Hgood.
+    + intros n H1 H2. rewrite Hg by lia. apply Hgap; assumption.
+    + intros n [<-|Hn]; [lia|]. specialize (Hbad n Hn). lia.
+    + intros n. rewrite Hp. f_equal. symmetry. apply (Hr 0 (pseq s) n (1 <=? n)). lia.
+    + intros n. rewrite Hm. f_equal. symmetry. apply (Hr 0 (seq s) n (pseq s <? n)). lia.
+    + intros n Hn. specialize (Hf n Hn). lia.
   - (* Replica *)
     rewrite Hi. destruct (Nat.ltb_spec (c s) (la s)); [|exact HI].
     destruct (Nat.ltb_spec (seq s) (c s + 1)).
-    + constructor; cbn [upd la gcd k c seq gen mem pseq pdata inflight fresh nmem ndisk]; auto; try lia.
-      * intros n. rewrite count_cons, Hm. unfold ind. bools.
-      * intros x Hx. apply add_name_In. right. apply Hs, Hx.
-      * intros n [<-|Hn]; unfold name_of; cbn [upd fresh]; apply add_name_In; [left; reflexivity|right; apply Hnm, Hn].
-    + constructor; cbn [upd la gcd k c seq gen mem pseq pdata inflight fresh nmem ndisk]; auto; try lia.
+    + destruct (memb (c s + 1) (bad s)) eqn:Eb.
+      * (* an undecodable entry *)
+        assert (Hk : k s <= (if k s + 1 =? c s + 1 then c s + 1 else k s) <= c s + 1) by (destruct (k s + 1 =? c s + 1); lia).
+        constructor; unfold good in *; fields; auto; try lia.
+        -- intros n Hn Hgood. destruct (Nat.eqb_spec (k s + 1) (c s + 1)).
+           ++ destruct (Nat.eq_dec n (c s + 1)) as [->|Hne]; [rewrite Eb in Hgood; discriminate|]. apply Hack; [lia|exact Hgood].
+           ++ apply Hack; assumption.
+        -- intros n. rewrite Hm. f_equal.
+           destruct (Nat.leb_spec n (seq s)).
+           ++ replace (n <=? c s + 1) with true by (symmetry; apply Nat.leb_le; lia). reflexivity.
+           ++ rewrite !andb_false_r. cbn [andb]. destruct (Nat.leb_spec n (c s + 1)); [|rewrite !andb_false_r; reflexivity].
+              destruct (Nat.eq_dec n (c s + 1)) as [->|Hne]; [rewrite Eb, !andb_false_r; reflexivity|].
+              rewrite (proj1 (negb_false_iff _) (Hgap n ltac:(lia) ltac:(lia))) by idtac. rewrite !andb_false_r. reflexivity.
+      * constructor; unfold good in *; fields; auto; try lia.
+        -- intros n. rewrite count_cons, Hm. unfold ind.
+           destruct (Nat.eqb_spec n (c s + 1)) as [->|Hne].
+           ++ rewrite Eb. bools.
+           ++ destruct (Nat.leb_spec n (seq s)).
+              ** replace (n <=? c s + 1) with true by (symmetry; apply Nat.leb_le; lia). reflexivity.
+              ** rewrite !andb_false_r. cbn [andb plus]. destruct (Nat.leb_spec n (c s + 1)); [|rewrite !andb_false_r; reflexivity].
+                 rewrite (proj1 (negb_false_iff _) (Hgap n ltac:(lia) ltac:(lia))). rewrite !andb_false_r. reflexivity.
+        -- intros x Hx. apply add_name_In. right. apply Hs, Hx.
+        -- intros n [<-|Hn]; unfold name_of; cbn [upd fresh]; apply add_name_In; [left; reflexivity|right; apply Hnm, Hn].
+    + constructor; unfold good in *; fields; auto; try lia.
   - (* FlushCommit *)
     destruct (mem s) as [|x l] eqn:Em; [exact HI|].
     cbn [ok_step] in Hok. rewrite Em in Hok.
-    constructor; cbn [upd la gcd k c seq gen mem pseq pdata inflight fresh nmem ndisk]; auto; try lia.
-    + intros n. rewrite count_app, Hp, Hm. unfold ind. bools.
-    + intros n. unfold count, ind. simpl. bools.
+    constructor; unfold good in *; fields; auto; try lia.
+    + intros n Hn Hgood. specialize (Hack n Hn Hgood). lia.
+    + intros n. rewrite count_app, Hp, Hm. unfold ind. destruct (negb (memb n (bad s))); rewrite ?andb_true_r, ?andb_false_r; [bools|reflexivity].
+    + intros n. unfold count, ind. simpl. destruct (negb (memb n (bad s))); rewrite ?andb_true_r, ?andb_false_r; [bools|reflexivity].
     + intros n [].
     + intros n Hn. apply in_app_or in Hn as [Hn|Hn]; [|apply Hnd, Hn].
       rewrite forallb_forall in Hok. specialize (Hok n Hn). apply memb_In in Hok. exact Hok.
   - (* FlushAck *)
     unfold ack_to. destruct ((k s <=? pseq s) && (pseq s <=? c s)) eqn:E;
-      constructor; cbn [upd la gcd k c seq gen mem pseq pdata inflight fresh nmem ndisk]; auto; try lia.
-    apply andb_prop in E as [_ E]. apply Nat.leb_le in E. lia.
+      constructor; unfold good in *; fields; auto; try lia.
+    + apply andb_prop in E as [E1 E2]. apply Nat.leb_le in E1, E2. lia.
   - (* MetaFlush *)
-    constructor; cbn [upd la gcd k c seq gen mem pseq pdata inflight fresh nmem ndisk]; auto; try lia.
+    constructor; unfold good in *; fields; auto; try lia.
     intros n Hn. apply Hs, Hnd, Hn.
   - (* WalSync *)
-    constructor; cbn [upd la gcd k c seq gen mem pseq pdata inflight fresh nmem ndisk]; auto; try lia.
+    constructor; unfold good in *; fields; auto; try lia.
   - (* Rebuild *)
     rewrite Hi.
-    assert (Hk : k s <= ack_to s (pseq s) <= pseq s).
-    { unfold ack_to. destruct ((k s <=? pseq s) && (pseq s <=? c s)); lia. }
-    constructor; cbn [upd la gcd k c seq gen mem pseq pdata inflight fresh nmem ndisk]; auto; try lia.
+    assert (Hk : k s <= ack_to s (pseq s) /\ (ack_to s (pseq s) = k s \/ ack_to s (pseq s) = pseq s) /\ ack_to s (pseq s) <= c s).
+    { unfold ack_to. destruct ((k s <=? pseq s) && (pseq s <=? c s)) eqn:E; [apply andb_prop in E as [E1 E2]; apply Nat.leb_le in E1, E2|]; lia. }
+    destruct Hk as [K1 [K2 K3]].
+    constructor; unfold good in *; fields; auto; try lia.
+    + intros n Hn Hgood. destruct K2 as [K2|K2]; rewrite K2 in Hn; [apply Hack; assumption|lia].
+    + intros n H1 H2. apply Hgap; lia.
   - (* Restart *)
-    assert (Hk : k s <= ack_to s (pseq s) <= pseq s).
-    { unfold ack_to. destruct ((k s <=? pseq s) && (pseq s <=? c s)); lia. }
-    constructor; cbn [upd la gcd k c seq gen mem pseq pdata inflight fresh nmem ndisk]; auto; try lia.
-    + intros n. unfold count, ind. simpl. bools.
+    assert (Hk : k s <= ack_to s (pseq s) /\ (ack_to s (pseq s) = k s \/ ack_to s (pseq s) = pseq s) /\ ack_to s (pseq s) <= c s).
+    { unfold ack_to. destruct ((k s <=? pseq s) && (pseq s <=? c s)) eqn:E; [apply andb_prop in E as [E1 E2]; apply Nat.leb_le in E1, E2|]; lia. }
+    destruct Hk as [K1 [K2 K3]].
+    constructor; unfold good in *; fields; auto; try lia.
+    + intros n Hn Hgood. destruct K2 as [K2|K2]; rewrite K2 in Hn; [apply Hack; assumption|lia].
+    + intros n H1 H2. destruct K2 as [K2|K2]; rewrite K2 in H2; [|lia].
+      destruct (negb (memb n (bad s))) eqn:Eg; [|reflexivity]. specialize (Hack n H2 Eg). lia.
+    + intros n. unfold count, ind. simpl. destruct (negb (memb n (bad s))); rewrite ?andb_true_r, ?andb_false_r; [bools|reflexivity].
     + intros n [].
 Qed.
 
 Lemma init_inv : Inv init.
 Proof.
-  constructor; cbn [init la gcd k c seq gen mem pseq pdata inflight fresh nmem ndisk]; auto; try lia; try (intros ? []).
+  constructor; unfold good; cbn [init la gcd k c seq gen mem pseq pdata inflight fresh nmem ndisk bad]; auto; try lia; try (intros ? []).
   - intros n. unfold count, ind. cbn [filter length]. destruct n; reflexivity.
   - intros n. unfold count, ind. cbn [filter length]. destruct n; reflexivity.
 Qed.
@@ -121,21 +171,27 @@ Proof.
   cbn [run_ok] in Hok. apply andb_prop in Hok as [H1 H2]. apply IH; [apply step_inv; assumption|exact H2].
 Qed.
 
-(* no logged write is lost, none is applied twice, the log is never acknowledged (nor collected) beyond the stored
-   sequence, and what is flushed resolves through the flushed dictionaries - at every point, a crash included *)
+(* no logged write is lost, none is applied twice, an acknowledged (or collected) entry that carries rows is stored -
+   the log never runs ahead of the stored sequence except over entries it cannot decode -, and what is flushed
+   resolves through the flushed dictionaries: at every point, a crash included *)
 Theorem no_loss_no_replay evs : Forall atomic evs -> run_ok init evs = true ->
   let s := run evs in
-  gcd s <= k s /\ k s <= pseq s /\
-  (forall n, 1 <= n <= la s -> (count n (pdata s) = 1 /\ n <= pseq s) \/ (count n (pdata s) = 0 /\ k s < n /\ gcd s < n)) /\
+  gcd s <= k s /\
+  (forall n, 1 <= n <= la s -> good s n = true ->
+     (count n (pdata s) = 1 /\ n <= pseq s) \/ (count n (pdata s) = 0 /\ k s < n /\ gcd s < n)) /\
+  (forall n, good s n = false -> count n (pdata s) = 0) /\
   (forall n, count n (pdata s) <= 1) /\
   (forall n, In n (pdata s) -> In (name_of s n) (ndisk s)).
 Proof.
-  intros Hall Hok. pose proof (run_inv evs Hall Hok) as [_ (O1 & O2 & O3 & O4 & O5 & O6) Hp _ _ _ _ Hnd]. cbv zeta.
-  split; [exact O1|]. split; [exact O2|]. split; [|split; [|exact Hnd]].
-  - intros n Hn. rewrite Hp. unfold ind. destruct (Nat.leb_spec n (pseq (run evs))).
+  intros Hall Hok. pose proof (run_inv evs Hall Hok) as [_ (O1 & O2 & O3 & O4 & O5) Hack _ _ Hp _ _ _ _ Hnd]. cbv zeta.
+  split; [exact O1|]. split; [|split; [|split; [|exact Hnd]]].
+  - intros n Hn Hg. rewrite Hp, Hg, andb_true_r. unfold ind. destruct (Nat.leb_spec n (pseq (run evs))).
     + left. replace (1 <=? n) with true by (symmetry; apply Nat.leb_le; lia). simpl. split; [reflexivity|lia].
-    + right. rewrite andb_false_r. repeat split; try reflexivity; lia.
-  - intros n. rewrite Hp. unfold ind. destruct ((1 <=? n) && (n <=? pseq (run evs))); lia.
+    + right. rewrite andb_false_r. split; [reflexivity|].
+      assert (k (run evs) < n). { destruct (Nat.lt_ge_cases (k (run evs)) n) as [Hlt|Hge]; [exact Hlt|]. specialize (Hack n Hge Hg). lia. }
+      lia.
+  - intros n Hg. rewrite Hp, Hg, andb_false_r. reflexivity.
+  - intros n. rewrite Hp. unfold ind. destruct ((1 <=? n) && (n <=? pseq (run evs)) && good (run evs) n); lia.
 Qed.
 
 (* after a restart everything above the acknowledged position is replayed exactly once: completeness of recovery *)
